@@ -159,7 +159,8 @@ PROPS = {
     "C20": {
         "lean_modules": ["RosedVerif.Props.C20"],
         "theorems": [],
-        "groups": ["H-all", "Z-prog"],
+        "groups": ["H-all", "Z-prog", "POOL"],
+        "race_groups": ["Z-prog", "POOL"],
         "oracle": True,
         "tie": "layer H heap model tied by H-all; package-level cell monitored after every public operation (Z-prog); regenerated fact zeroCachePrefilled",
     },
